@@ -200,7 +200,7 @@ def f_corpus(kinds, name):
         env["VERIF_REPO"] = repo
         p = subprocess.run([REPO_PY, os.path.join(VERIF, "pyvc", "corpus.py"), ",".join(kinds)], capture_output=True,
                            text=True, env=env, timeout=600)
-        line = [l for l in p.stdout.splitlines() if l.startswith("{")]
+        line = [l for l in p.stdout.split("\n") if l.startswith("{")]
         if not line:
             return [ob(f"corpus::{name}", False, (p.stderr or p.stdout)[-400:], checker_error=False,
                        witness={"stderr": (p.stderr or "")[-300:]})]
@@ -314,7 +314,7 @@ def f_rt(script, name, bounded=False, args_quick=(), args_thorough=()):
         extra = list(args_thorough if tier == "thorough" else args_quick)
         p = subprocess.run([REPO_PY, os.path.join(VERIF, "pyvc", f"enum_{script}.py")] + extra, capture_output=True,
                            text=True, env=env, timeout=3000)
-        line = [l for l in p.stdout.splitlines() if l.startswith("{")]
+        line = [l for l in p.stdout.split("\n") if l.startswith("{")]
         if not line:
             return [ob(f"{name}", False, (p.stderr or p.stdout)[-400:], witness={"stderr": (p.stderr or "")[-300:]},
                        bounded=bounded)]
@@ -361,9 +361,42 @@ PROPS = {
 }
 
 
-def run(pid, prog, reg, tier, repo):
+def f_axioms(prog, reg, repo, tier="quick"):
+    """Guard, not an obligation about the code: the executable readings of the trusted CPython axioms agree with the
+    interpreter that runs the repository (pyvc/axiom_check.py).  A disagreement is a checker error."""
+    env = dict(os.environ)
+    env["VERIF_REPO"] = repo
+    p = subprocess.run([REPO_PY, os.path.join(VERIF, "pyvc", "axiom_check.py"), "5" if tier == "thorough" else "4"],
+                       capture_output=True, text=True, env=env, timeout=1200)
+    line = [l for l in p.stdout.split("\n") if l.startswith("{")]
+    if not line:
+        return [ob("axioms::cpython-readings", False, (p.stderr or p.stdout)[-300:], checker_error=True)]
+    r = json.loads(line[-1])
+    badr = [x for x in r["results"] if not x["ok"]]
+    return [ob(f"axioms::cpython-readings[{len(r['results'])} readings of str/re/io/deque axioms agree with CPython {r['python']} (bound {r['bound']})]",
+               r["ok"], "; ".join(f"{x['name']}: {x.get('detail')}" for x in badr[:3]) or None,
+               size=sum(x["cases"] for x in r["results"]), checker_error=True, bounded=True)]
+
+
+f_axioms.takes_tier = True
+
+
+def groups(pid):
+    """Task groups of a property's finite/bounded providers: the in-process ones (they share the automaton
+    extraction) form group 0, every provider that runs a subprocess on the repository interpreter is its own group."""
+    fs = list(PROPS.get(pid, {}).get("finite", []))
+    if pid != "C19":
+        fs = [f_axioms] + fs
+    inproc = [f for f in fs if not getattr(f, "takes_tier", False)]
+    sub = [f for f in fs if getattr(f, "takes_tier", False)]
+    return ([inproc] if inproc else []) + [[f] for f in sub]
+
+
+def run(pid, prog, reg, tier, repo, group=None):
     out = []
-    for f in PROPS.get(pid, {}).get("finite", []):
+    gs = groups(pid)
+    fs = [f for g in gs for f in g] if group is None else gs[group]
+    for f in fs:
         if getattr(f, "takes_tier", False):
             out.extend(f(prog, reg, repo, tier))
         else:
